@@ -601,6 +601,13 @@ def directed_out_of_range(rng):
             for v in (n, -n - 1):
                 out.append(dict(kind='single', src=src, sdtype='i8', shape=[n, 2], k1=[], k2=[('i', v)], transforms=[],
                                 arr=[False] * 16))
+            # negative entries of a sequence on a NON-first axis without first stage, axis 0 shorter / longer than it
+            for shape in ([2, n + 3], [n + 3, n], [2, 3, n + 2]):
+                m = shape[-1]
+                for lst in ([-1], [-3, -1], [0, -2], [-m, -1]):
+                    k2 = [('s', None, None, None)] * (len(shape) - 1) + [('l', lst)]
+                    out.append(dict(kind='single', src=src, sdtype='i8', shape=shape, k1=[], k2=k2, transforms=[],
+                                    arr=[(len(out) + j) % 2 == 0 for j in range(16)]))
     return out
 
 
